@@ -64,6 +64,10 @@ smt.AXIOMS.extend([z3.ForAll([_mk], MkJ(_mk) == 0, patterns=[MkJ(_mk)]),
                    z3.ForAll([_mk], MkY(_mk) == 0, patterns=[MkY(_mk)])])
 
 
+MkU = z3.Function('MkU', I, I)          # "unfold the spec definitions at index j" (only where asked for)
+smt.AXIOMS.append(z3.ForAll([_mk], MkU(_mk) == 0, patterns=[MkU(_mk)]))
+
+
 def Unfold(j):
     return MkJ(j) == 0
 
@@ -73,10 +77,11 @@ def UnfoldY(y):
 
 
 def unfold(j):
-    return VBool(Unfold(_lift(j).t))
+    """marker asking for the spec definitions (CbcC, CtrKS, GFold, ...) to be unfolded at index j"""
+    return VBool(MkU(_lift(j).t) == 0)
 
 
-def forall2(fn, hi_j, hi_y=16, pat=None, goal=False):
+def forall2(fn, hi_j, hi_y=16, pat=None, goal=True, unfold=False):
     """forall j in [0,hi_j), y in [0,hi_y): fn(j, y)   (hi_y a literal: unrolled over y, so every byte
     position inside a block is a literal offset).  `pat(j, y)` gives the trigger terms; the marker MkJ(j) is
     always an alternative trigger.  goal=True: the body is guarded by the marker."""
@@ -88,6 +93,8 @@ def forall2(fn, hi_j, hi_y=16, pat=None, goal=False):
         g = z3.And(0 <= j, j < _lift(hi_j).t)
         if goal:
             g = z3.And(g, Unfold(j))
+        if unfold:
+            g = z3.And(g, MkU(j) == 0)
         marker = MkJ(j)
         _KEEP.append(marker)
         pats = [marker]
@@ -252,7 +259,7 @@ def _cbc_axioms():
     return [FA([k, iv, p, j], z3.Implies(j == -1, CbcC(k, iv, p, j) == iv), [CbcC(k, iv, p, j)]),
             # C_j = E(P_j xor C_{j-1});  instantiated only where an Unfold(j) marker is present (no matching loop)
             FA([k, iv, p, j], z3.Implies(j >= 0, CbcC(k, iv, p, j) == blk),
-               [_mp(CbcC(k, iv, p, j), MkJ(j))])]
+               [_mp(CbcC(k, iv, p, j), MkU(j))])]
 
 
 smt.AXIOMS.extend(_cbc_axioms())
@@ -419,7 +426,7 @@ def _cbc_pair(api):
 def _bytewise_eq_unfold(a, b, nblocks):
     """a == b byte-wise over nblocks 16-byte blocks; the goal carries the Unfold(j) marker so that the CBC
     definition is unfolded at the (skolem) block index"""
-    return forall2(lambda j, y: at(a, 16 * j + y) == at(b, 16 * j + y), nblocks, goal=True)
+    return forall2(lambda j, y: at(a, 16 * j + y) == at(b, 16 * j + y), nblocks, unfold=True)
 
 
 @scenario('cbc-roundtrip', PROP,
@@ -473,11 +480,20 @@ def ctr_block_bytes(v):
 def _ctr_axioms():
     k = z3.Const('ck', Val)
     c0, i = z3.Ints('cc0 ci')
-    A = [FA([k, c0, i], CtrKS(k, c0, i) == AesE(k, *ctr_block_bytes(c0 + i)), [CtrKS(k, c0, i)])]
+    A = [FA([k, c0, i], CtrKS(k, c0, i) == AesE(k, *ctr_block_bytes(c0 + i)), [_mp(CtrKS(k, c0, i), MkU(i))])]
     # numberToByteArray(n, 16) keeps the low-order 16 bytes: the one instance needed (n == 2^128 -> 0),
     # stated element-wise
     hi, lo = smt.s_be(z3.IntVal(TWO128), z3.IntVal(16)), smt.s_be(z3.IntVal(0), z3.IntVal(16))
     A.append(z3.And([sat(hi, z3.IntVal(t)) == sat(lo, z3.IntVal(t)) for t in range(16)]))
+    A.append(z3.ForAll([i], sat(hi, i) == sat(lo, i), patterns=[sat(hi, i), sat(lo, i)]))
+    # lemma (consequence of the s_be / s_val axioms, stated with a trigger that always fires): re-encoding the
+    # value of a 16-byte block on 16 bytes gives the block back
+    a = z3.Const('ca', Seq)
+    re = smt.s_be(smt.s_val(a) % TWO128, z3.IntVal(16))
+    A.append(FA([a], z3.Implies(z3.And(isb(a), slen(a) == 16),
+                                z3.And([sat(re, z3.IntVal(t)) == sat(a, z3.IntVal(t)) for t in range(16)] +
+                                       [smt.s_val(a) % TWO128 == smt.s_val(a)])),
+                [smt.s_val(a)]))
     return A
 
 
@@ -505,9 +521,9 @@ contract(U + 'python_aes.py:Python_AES_CTR._counter_update',
                                    ns.f(ns.self, '_counter_bytes') <= 16),
          result=T.none(), modifies=[('self', '_counter')],
          raises={OverflowError: ('iff', lambda ns: (lambda cb, new: S.And(
-             cb > 0, forall1(lambda q: at(new, q) == 255, 16 - cb, 16)))(
+             cb > 0, new[16 - cb:16] == S.rep(255, cb)))(
                  ns.f(ns.self, '_counter_bytes'),
-                 VSeq(smt.s_be((smt.s_val(ns.f(ns.self, '_counter').t) + 1) % TWO128, z3.IntVal(16)), 'byte')))},
+                 VSeq(smt.s_be(smt.s_val(ns.f(ns.self, '_counter').t) + 1, z3.IntVal(16)), 'byte')))},
          ensures=lambda ns: S.And(_ctr_counter_is(ns.f(ns.self, '_counter'), _ctr_c0(ns) + 1),
                                   S.len_(ns.f(ns.self, '_counter')) == 16, S.is_bytes(ns.f(ns.self, '_counter'))),
          exc_ensures=lambda ns: S.And(_ctr_counter_is(ns.f(ns.self, '_counter'), _ctr_c0(ns) + 1)),
@@ -524,7 +540,7 @@ def _ctr_enc_inv(ns):
     m = S.len_(mask) / 16
     return S.And(
         S.is_bytes(mask), S.len_(mask) == 16 * m, m >= 0,
-        S.Or(m == 0, 16 * (m - 1) < n),
+        S.Or(m == 0, 16 * (m - 1) < n), unfold(m),
         _ctr_counter_is(ns.f(ns.self, '_counter'), c0 + m),
         S.len_(ns.f(ns.self, '_counter')) == 16, S.is_bytes(ns.f(ns.self, '_counter')),
         forall2(lambda j, y: at(mask, 16 * j + y) == at(ctr_ks(k, c0, j), y), m,
@@ -566,3 +582,217 @@ for _nm in ('encrypt', 'decrypt'):
              doc='CTR mode: byte q of the result is P[q] xor E(T_0 + q//16)[q%16], the counter block T_0 being '
                  'self._counter read as a 128-bit big-endian integer (wrap at 2^128); afterwards the counter has '
                  'advanced by ceil(len/16); precondition from the call sites (GCM, CCM): no dedicated counter field')
+
+
+# ---------------------------------------------------------------------------
+# ct_compare_digest: under the running interpreter tlslite.utils.constanttime.ct_compare_digest IS
+# hmac.compare_digest (C builtin); the pure-Python fallback in constanttime.py is not the definition in
+# force.  Trusted model: compare_digest(a, b) == (a == b) for byte strings (whole-string comparison).
+import hmac as _hmac
+from pyvc.builtins_model import model as _model
+
+
+@_model(_hmac.compare_digest)
+def _m_compare_digest(ex, args, kw, st, fr, node):
+    a, b = args
+    if not (isinstance(a, VSeq) and isinstance(b, VSeq) and a.elem == 'byte' and b.elem == 'byte'):
+        raise Unsupported('hmac.compare_digest(%r, %r)' % (a, b))
+    st.assume(smt.ext_witness_eq(a.t, b.t))        # unequal strings differ observably (length or some byte)
+    return [Outcome('normal', st, VBool(a.t == b.t))]
+
+
+# ---------------------------------------------------------------------------
+# AES-GCM (SP 800-38D).  Abstract: GMul(h, y) = y * H in GF(2^128) (table-driven AESGCM._mul, bounded
+# differential check against the bit-wise definition in specs/ciphers.py).
+#   GHASH:  X_0 = 0,  X_i = (X_{i-1} xor B_i) * H  over  pad16(A) || pad16(C) || [len(A)]_64 || [len(C)]_64
+#   T = GHASH xor E_K(J_0),   J_0 = IV || 0^31 || 1,   C = CTR_K(inc32(J_0), P)
+import tlslite.utils.aesgcm as GCMMOD
+from pyvc.executor import BoundMethod
+
+GMul = S.uf('GMul', [Val, I], I)
+GFold = S.uf('GFold', [Val, I, Seq, I], I, seq_ext=[2])     # h, start value, data, number of full blocks folded
+
+
+def _gcm_axioms():
+    h = z3.Const('gh', Val)
+    d = z3.Const('gd', Seq)
+    y, i, x, z = z3.Ints('gy gi gx gz')
+    A = [FA([h, y], z3.Implies(z3.And(0 <= y, y < TWO128), z3.And(0 <= GMul(h, y), GMul(h, y) < TWO128)),
+            [GMul(h, y)]),
+         FA([h, y, d], GFold(h, y, d, z3.IntVal(0)) == y, [GFold(h, y, d, z3.IntVal(0))]),
+         FA([h, y, d, i], z3.Implies(i == 0, GFold(h, y, d, i) == y), [GFold(h, y, d, i)]),
+         # X_{i+1} = (X_i xor B_i) * H ; unfolded only where the marker MkJ(i) is present
+         FA([h, y, d, i], z3.Implies(i >= 0, GFold(h, y, d, i + 1) ==
+                                     GMul(h, smt.bxor(GFold(h, y, d, i), smt.s_val(smt.s_slice(d, 16 * i, 16 * i + 16))))),
+            [_mp(GFold(h, y, d, i), MkU(i))]),
+         # bit-operation facts on 128-bit operands (proved in BV by _selfcheck_bits128)
+         FA([x, z], z3.Implies(z3.And(0 <= x, x < TWO128, 0 <= z, z < TWO128),
+                               z3.And(0 <= smt.bxor(x, z), smt.bxor(x, z) < TWO128)), [smt.bxor(x, z)]),
+         FA([x, z], z3.Implies(z3.And(0 <= x, x < TWO128, x % (1 << 64) == 0, 0 <= z, z < (1 << 64)),
+                               smt.bor(x, z) == x + z), [smt.bor(x, z)])]
+    return A
+
+
+def _selfcheck_bits128():
+    a, b = z3.BitVecs('s128a s128b', 136)
+    lim = z3.BitVecVal(TWO128, 136)
+    s = z3.Solver()
+    s.add(z3.ULT(a, lim), z3.ULT(b, lim))
+    s.add(z3.Not(z3.And(z3.ULT(a ^ b, lim),
+                        z3.Implies(z3.And(z3.Extract(63, 0, a) == 0, z3.ULT(b, z3.BitVecVal(1 << 64, 136))),
+                                   (a | b) == a + b))))
+    if s.check() != z3.unsat:
+        raise RuntimeError('128-bit bit-operation lemmas not proved')
+
+
+_selfcheck_bits128()
+smt.AXIOMS.extend(_gcm_axioms())
+
+AES_GCM = T.obj(GCMMOD.AESGCM, _ctr=AES_CTR, h=T.opaque())
+
+
+def _gcm_setup(ex, st, ns):
+    """self._rawAesEncrypt is Rijndael(key, 16).encrypt for the same key as the CTR object
+    (python_aesgcm.new / AESGCM.__init__); the hash key h stands for E_K(0^128) and its product table."""
+    g = st.env['self']
+    ctr = st.heap[(g.oid, '_ctr')]
+    rij = st.heap[(ctr.oid, 'rijndael')]
+    st.heap[(g.oid, '_rawAesEncrypt')] = VPy(BoundMethod(rij, RJ.Rijndael.__dict__['encrypt'], RJ.Rijndael))
+
+
+from pyvc.values import VPy   # noqa
+
+
+def _gcm_mul(ex, args, kw, st, fr, node):
+    self_, y = args[0], ex._as_int(args[1])
+    h = st.heap[(self_.oid, 'h')].t
+    res = []
+    ok, bad = ex.split(st, z3.And(0 <= y.t, y.t < TWO128))
+    if bad is not None:     # `assert y == 0` after consuming 128 bits fails for larger y; negative y loops on -1
+        res.append(ex.raise_(bad, AssertionError, 'AESGCM._mul operand out of range line %d' % getattr(node, 'lineno', 0)))
+    if ok is not None:
+        r = VInt(GMul(h, y.t))
+        ok.assume(z3.And(0 <= r.t, r.t < TWO128))
+        res.append(Outcome('normal', ok, r))
+    return res
+
+
+REG.external[U + 'aesgcm.py:AESGCM._mul'] = _gcm_mul
+REG.no_inline.add(U + 'aesgcm.py:AESGCM._mul')
+
+
+def H(ns, obj=None):
+    return ns.f(ns.self if obj is None else obj, 'h').t
+
+
+def gfold(h, y, d, i):
+    return VInt(GFold(h, _lift(y).t, d.t, _lift(i).t))
+
+
+def gmul(h, y):
+    return VInt(GMul(h, _lift(y).t))
+
+
+def vxor(a, b):
+    return VInt(smt.bxor(_lift(a).t, _lift(b).t))
+
+
+def gupd(h, y, d):
+    """GHASH update over data d zero-padded to a multiple of 16 bytes (VInt)"""
+    n = S.len_(d)
+    nb = n / 16
+    e = n % 16
+    full = gfold(h, y, d, nb)
+    last = S.cat(d[16 * nb:n], S.rep(0, 16 - e))
+    return S.ite(e == 0, full, gmul(h, vxor(full, VInt(smt.s_val(last.t)))))
+
+
+def _gcm_update_inv(ns):
+    h = H(ns)
+    return S.And(ns.y >= 0, ns.y < TWO128, ns.idx >= 0, unfold(ns.idx),
+                 ns.y == gfold(h, ns.old.y, ns.data, ns.idx))
+
+
+contract(U + 'aesgcm.py:AESGCM._update',
+         params={'self': AES_GCM, 'y': T.int(), 'data': T.bytes()}, setup=_gcm_setup,
+         requires=lambda ns: S.And(ns.y >= 0, ns.y < TWO128),
+         result=T.int(),
+         ensures=lambda ns: S.And(ns.result == gupd(H(ns), ns.y, ns.data), ns.result >= 0, ns.result < TWO128),
+         loops={1: LoopSpec(_gcm_update_inv, fingerprint='len(data) // 16')},
+         prop=PROP,
+         doc='GHASH absorption: every full 16-byte block B updates y to (y xor B)*H, a trailing partial block is '
+             'zero-padded on the right to 16 bytes first; nothing is absorbed for empty data')
+
+
+def ghash_tag(h, k, j0_bytes, aad, ct):
+    """T = GHASH_H(A, C) xor E_K(J_0) as 16 bytes (VSeq).  j0_bytes: 16 z3 Int terms."""
+    x = gupd(h, gupd(h, 0, aad), ct)
+    lenblk = S.len_(aad) * 8 * (1 << 64) + S.len_(ct) * 8            # [len(A)]_64 || [len(C)]_64, lengths in bits
+    s = gmul(h, vxor(x, lenblk))
+    mask = VInt(smt.s_val(AesE(k, *j0_bytes)))
+    return VSeq(smt.s_be(vxor(s, mask).t, z3.IntVal(16)), 'byte')
+
+
+LEN61 = 1 << 61      # SP 800-38D: len(A), len(C) < 2^64 bits
+
+
+contract(U + 'aesgcm.py:AESGCM._auth',
+         params={'self': AES_GCM, 'ciphertext': T.bytes(), 'ad': T.bytes(), 'tagMask': T.bytes()}, setup=_gcm_setup,
+         requires=lambda ns: S.And(S.len_(ns.ciphertext) < LEN61, S.len_(ns.ad) < LEN61, S.len_(ns.tagMask) == 16),
+         result=T.bytes(),
+         ensures=lambda ns: (lambda h, x: S.And(
+             S.len_(ns.result) == 16, S.is_bytes(ns.result),
+             ns.result == VSeq(smt.s_be(vxor(gmul(h, vxor(x, S.len_(ns.ad) * 8 * (1 << 64) + S.len_(ns.ciphertext) * 8)),
+                                             VInt(smt.s_val(ns.tagMask.t))).t, z3.IntVal(16)), 'byte')))(
+                 H(ns), gupd(H(ns), gupd(H(ns), 0, ns.ad), ns.ciphertext)),
+         prop=PROP,
+         doc='tag = (GHASH over pad16(A) || pad16(C) || [8 len(A)]_64 || [8 len(C)]_64) xor tagMask, 16 bytes big-endian')
+
+
+def _j0(nonce, last):
+    """bytes of nonce || 0^3 || last  (16 z3 Int terms)"""
+    return [sat(nonce.t, z3.IntVal(t)) for t in range(12)] + [z3.IntVal(0)] * 3 + [z3.IntVal(last)]
+
+
+def _j0_val(nonce, last):
+    """integer value of the block nonce || 0^3 || last"""
+    return VInt(smt.s_val(S.cat(nonce, [0, 0, 0, last]).t))
+
+
+def _gcm_ctr(ns, st_ns=None):
+    return (st_ns or ns).f(ns.self, '_ctr')
+
+
+GCM_PMAX = (1 << 36) - 32          # SP 800-38D: len(P) <= 2^39 - 256 bits
+
+
+def _gcm_ct_spec(k, nonce, inp, out):
+    """out == CTR_K(J_0 + 1, inp): byte-wise, counter blocks J_0 + 1 + j (128-bit add == inc32 for <= 2^32 - 2 blocks)"""
+    n = S.len_(inp)
+    c0 = _j0_val(nonce, 2)
+    return S.And(S.len_(out) == n,
+                 forall2(lambda j, y: S.implies(16 * j + y < n,
+                                                at(out, 16 * j + y) == vxor(at(inp, 16 * j + y), at(ctr_ks(k, c0, j), y))),
+                         ctr_nblocks(n), pat=lambda j, y: [at(ctr_ks(k, c0, j), y)]))
+
+
+def _gcm_seal_post(ns):
+    k = ns.f(ns.f(_gcm_ctr(ns.old), 'rijndael'), 'k').t
+    h = H(ns)
+    n = S.len_(ns.plaintext)
+    ct = ns.result[0:n]
+    tag = ns.result[n:n + 16]
+    return S.And(S.len_(ns.result) == n + 16, S.is_bytes(ns.result),
+                 _gcm_ct_spec(k, ns.nonce, ns.plaintext, ct),
+                 tag == ghash_tag(h, k, _j0(ns.nonce, 1), ns.data, ct))
+
+
+contract(U + 'aesgcm.py:AESGCM.seal',
+         params={'self': AES_GCM, 'nonce': T.bytes(), 'plaintext': T.bytes(), 'data': T.bytes()}, setup=_gcm_setup,
+         requires=lambda ns: S.And(S.len_(ns.plaintext) <= GCM_PMAX, S.len_(ns.data) < LEN61,
+                                   ns.f(_gcm_ctr(ns), '_counter_bytes') == 0),
+         result=T.bytes(), modifies=[('self', '_ctr')],
+         raises={ValueError: ('iff', lambda ns: S.len_(ns.nonce) != 12)},
+         ensures=_gcm_seal_post,
+         prop=PROP,
+         doc='seal = C || T with C = CTR_K(J_0 + 1, P), J_0 = nonce || 0^31 || 1, T = GHASH_H(A, C) xor E_K(J_0)')
